@@ -483,7 +483,71 @@ def check_affine(prog, report):
 MIRROR_COORD = {'mirror': 0, 'mirror_x': 0, 'mirror_y': 1, 'mirror_z': 2}
 
 
+def check_immutable_rules(prog, report):
+    """R-nomutate, program wide: the node and weight arrays of a quadrature
+    scheme are never written after construction -- schemes hand their
+    arrays on to derived schemes (mirrors, products, Duffy maps) and cache
+    them, so an in-place write changes rules that look untouched."""
+    bad = []
+    n = 0
+    for rel, m in sorted(prog.modules.items()):
+        for qual, fi in m.funcs.items():
+            fn = fi.node
+            if not isinstance(fn, (ast.FunctionDef, ast.AsyncFunctionDef)):
+                continue
+            n += 1
+            alias = set()
+            for st in ast.walk(fn):
+                if isinstance(st, ast.Assign) and len(st.targets) == 1 and \
+                        isinstance(st.targets[0], ast.Name) and isinstance(
+                            st.value, ast.Attribute) and st.value.attr in (
+                                'points', 'weights'):
+                    alias.add(st.targets[0].id)
+
+            def arr(e):
+                """does e denote the points/weights array of an object
+                (or a view into it)?"""
+                while isinstance(e, ast.Subscript):
+                    e = e.value
+                if isinstance(e, ast.Attribute) and e.attr in ('points',
+                                                               'weights'):
+                    own_init = qual.endswith('.__init__') and isinstance(
+                        e.value, ast.Name) and e.value.id == 'self'
+                    return not own_init
+                return isinstance(e, ast.Name) and e.id in alias
+            for st in ast.walk(fn):
+                hit = None
+                if isinstance(st, ast.Assign):
+                    for t in st.targets:
+                        if isinstance(t, ast.Subscript) and arr(t):
+                            hit = t
+                elif isinstance(st, ast.AugAssign) and arr(st.target):
+                    hit = st.target
+                elif isinstance(st, ast.Call) and isinstance(
+                        st.func, ast.Attribute) and st.func.attr in (
+                            'fill', 'sort', 'resize', 'itemset', 'put',
+                            'partition') and arr(st.func.value):
+                    hit = st.func.value
+                if hit is not None:
+                    bad.append((fi, st, text(hit)))
+    for fi, st, what in bad:
+        report.violation(
+            'R-nomutate', '%s writes `%s` in place' % (fi.qualname,
+                                                       what[:40]),
+            fi.where(st),
+            'the node / weight array of a scheme is written after '
+            'construction; the array may be shared with the scheme it was '
+            'derived from and with cached mirrors',
+            construct='%s: in-place write to scheme arrays' % fi.qualname)
+    if not bad:
+        report.ok('R-nomutate', 'scheme arrays are never written in place',
+                  'all modules', '%d functions scanned for subscript / '
+                  'augmented stores and in-place methods on `.points` / '
+                  '`.weights` (and local aliases)' % n)
+
+
 def check_mirrors(prog, report):
+    check_immutable_rules(prog, report)
     n = 0
     for cls, dims in (('QuadScheme1D', 1), ('QuadScheme2D', 2),
                       ('QuadScheme3D', 3)):
